@@ -732,8 +732,13 @@ func pageRun(t *testing.T, run *ev.Run, idx, nblocks int) {
 				}
 				run.Obs("header_hashes_compared", 1)
 			}
+			// Most reopened nodes get the next 25 blocks; those reopened in the first
+			// blocks of a page that has a complete page before it go on to the end
+			// of the chain (across the next page boundary) and must then still
+			// report the producer's hash for every index of every page.
+			full := hh >= 2000 && hh%2000 <= 12 && len(p.Raw) >= hh+2000 && k%3 == 0
 			end := hh + 25
-			if end > len(p.Raw) {
+			if full || end > len(p.Raw) {
 				end = len(p.Raw)
 			}
 			for i := hh; i < end; i++ {
@@ -745,6 +750,22 @@ func pageRun(t *testing.T, run *ev.Run, idx, nblocks int) {
 					return &outcome{"page:diverged-after-reopen", fmt.Sprintf("root differs at %d", i+1)}
 				}
 				run.Obs("blocks_replayed_after_reopen", 1)
+			}
+			if full {
+				run.Obs("reopened_nodes_driven_across_next_page_boundary", 1)
+				for q := 0; q <= int(rp.BC.HeaderHeight()); q++ {
+					want := p.BC.GetHeaderHash(uint32(q))
+					if got := rp.BC.GetHeaderHash(uint32(q)); got != want {
+						return &outcome{"page:header-hash-differs-after-reopen-and-next-page", fmt.Sprintf("reopened at %d, now at %d: hash of %d is %s, want %s", hh, rp.BC.BlockHeight(), q, got.StringLE(), want.StringLE())}
+					}
+					run.Obs("header_hashes_compared", 1)
+				}
+				for _, q := range []uint32{0, 5, 1999, 2000, uint32(hh), uint32(hh) + 1} {
+					b, err := rp.BC.GetBlock(rp.BC.GetHeaderHash(q))
+					if err != nil || b.Index != q {
+						return &outcome{"page:block-by-index-differs-after-reopen-and-next-page", fmt.Sprintf("reopened at %d: block by index %d: %v", hh, q, err)}
+					}
+				}
 			}
 			return nil
 		}})
@@ -782,7 +803,7 @@ func TestCheck(t *testing.T) {
 		}
 	}
 	if do("page") {
-		pageRun(t, run, 500, ev.Pick(2030, 4030))
+		pageRun(t, run, 500, ev.Pick(4030, 6030))
 	}
 	_ = sort.Strings
 }
